@@ -922,3 +922,16 @@ func (m *Model) Clone() *Model {
 	}
 	return c
 }
+
+// Resolve returns the object version a read of key (optionally of one version)
+// addresses, nil when there is none or it is a delete marker.
+func (b *Bucket) Resolve(key string, versionID *string) *Ver {
+	v, k := b.resolve(key, versionID)
+	if k != OK {
+		return nil
+	}
+	return v
+}
+
+// Upload returns the in-progress upload id of key, nil when there is none.
+func (b *Bucket) Upload(key, id string) *Upload { return b.upload(key, id) }
